@@ -16,8 +16,13 @@
      (7 term names)                       TensorAccess::try_from
      (8 term names)                       TensorTranspose::try_from
      (9 (term ...) position name kind)    TensorStack::from   kind 0 = array [S; N], 1 = tuple
+                                          (an empty array panics: "No sources provided")
      (10 (term ...) name kind)            TensorChain::from   (kind ignored by the model)
-     (11 term kind)                       kind 0 = Box<S>, 1 = &mut S, 2 = Box<dyn TensorMut> again
+     (11 term kind)                       kind 0 = Box<S>, 1 = &mut S, 2 = the erased box again,
+                                          3 = RecordTensor::from_existing(None, view) (elements are
+                                          (value, 0) pairs on the Rust side), 4 = &S (everything
+                                          above it is read-only: such cases carry no writes);
+                                          all index-transparent = VWrap in the model
      (12 id rows cols name0 name1)        TensorRefMatrix::with_names over a Matrix (row major)
    probes := ((i ...) ...)   index tuples of the view's dimensionality
    writes := (((i ...) value) ...)   applied in order through get_reference_mut
